@@ -162,3 +162,67 @@ def replay_generic(rep, path, judge_probe=None):
     else:
         print(json.dumps(d)[:2000])
     return rep.finish()
+
+
+def model_vs_probe(rep, pid, scenario, combos):
+    """model / implementation correspondence: the LTS elaborated from the REAL expansion of the harness actor predicts the
+    harness scenario; the prediction is compared with what the real runtime does.  combos: list of (lib, chan, params dict)."""
+    import probe, coqgen
+    cfgs = []
+    for lib, ch, prm in combos:
+        im = gen_impl.harness_impl(lib)
+        cfgs.append({"kind": "actor", "lib": lib, "attr": gen_impl.actor_attr(lib, ch if ch else None), "item": im["item"], "actor_ty": "Probe", "prm": prm, "ch": ch})
+    inst.expand_configs(cfgs, tag=pid.lower() + "_h")
+    items, defs, runs, keep = [], [], [], []
+    for n, c in enumerate(cfgs):
+        ms = inst.coq_models(c) if c["class"] == "TOKENS" else []
+        if len(ms) != 1 or ms[0] is None:
+            rep.notes.append("harness actor not recognised for %s/%s: correspondence skipped" % (c["lib"], c["ch"]))
+            continue
+        names = [m["name"] for m in c["ex"]["models"][0]["methods"]]
+        ix = {k: names.index(k) for k in ("hold", "boom", "add", "tick", "get") if k in names}
+        if len(ix) != 5:
+            continue
+        defs.append("Definition h_%d : model := %s." % (n, ms[0]))
+        p = c["prm"]
+        if scenario == "burst":
+            items.append(("p%d" % n, "burst_scn (elab h_%d) %d %d %d" % (n, ix["hold"], ix["tick"], p["k"])))
+            runs.append(["burst", c["lib"], c["ch"], "k=%d" % p["k"]])
+        else:
+            for fl in ("false", "true"):
+                items.append(("p%d_%s" % (n, fl), "fault_scn (elab h_%d) %s %d %d %d %d %d %d %d" % (n, fl, ix["hold"], ix["boom"], ix["add"], ix["tick"], ix["get"], p["waiting"], p["later"])))
+            runs.append(["fault", c["lib"], c["ch"], "waiting=%d" % p["waiting"], "later=%d" % p["later"]])
+        keep.append(n)
+    if not keep:
+        return
+    vals = inst.coq_values("%s_harness" % pid, inst.HEADER + "From IT Require Import Runtime.Explore.", items, defs="\n".join(defs))
+    try:
+        obs = probe.run_many(runs)
+    except probe.ProbeCompileError:
+        rep.notes.append("probe does not compile: model/implementation correspondence skipped")
+        return
+    code = {"returned": 0, "panicked": 1, "hung": 2}
+    for n, a, d in zip(keep, runs, obs):
+        rep.evaluations += 1
+        if "error" in d:
+            rep.notes.append("probe %s inconclusive: %s" % (a, d["error"]))
+            continue
+        if scenario == "burst":
+            pred, seen = int(vals["p%d" % n]), d["returned_before_release"]
+            ok = pred == seen
+            detail = {"predicted_returned": pred, "observed_returned": seen}
+        else:
+            import re
+            pa = [int(x) for x in re.findall(r"\d+", vals["p%d_false" % n])]
+            pb = [int(x) for x in re.findall(r"\d+", vals["p%d_true" % n])]
+            seen = [code[c["outcome"]] for c in d["calls"] if c["kind"] != "boom"]
+            ok = len(seen) == len(pa) and all(s in (x, y) for s, x, y in zip(seen, pa, pb))
+            detail = {"predicted (no interleaving)": pa, "predicted (blocked senders slip in)": pb, "observed": seen, "legend": "0 returned, 1 panicked, 2 hung; adds then later calls"}
+        rep.traces += 1
+        rep.oblige(ok)
+        if ok:
+            if len(rep.samples) < 10:
+                rep.sample({"correspondence": " ".join(str(x) for x in a), **detail})
+        else:
+            rep.violation("corr_" + "_".join(str(x) for x in a), {"what": "the runtime model elaborated from the real expansion predicts another outcome than the real runtime shows (model/implementation correspondence broken)",
+                                                                    "scenario": a, **detail, "observation": {k: v for k, v in d.items() if k != "log"}}, found=False)
